@@ -51,3 +51,22 @@ def t_modconst(s: float, k: float) -> float:
 
 def t_modattr(s: float, k: float) -> float:
     return Settings.gain * k * s
+
+
+# ---- two different functions with the same module, name and qualified name (defined under a branch of a factory) ----
+def make_rate(variant: str):  # noqa: ANN201
+    if variant == "linear":
+
+        def rate(s: float, k: float) -> float:
+            return k * s
+
+    else:
+
+        def rate(s: float, k: float) -> float:
+            return k * s / (1.0 + s)
+
+    return rate
+
+
+RATE_LINEAR = make_rate("linear")
+RATE_SATURATING = make_rate("saturating")
